@@ -22,6 +22,6 @@ def handleCa (args : List String) : Option String :=
       let spec : Caches.Spec := { slotByM := r.slotByM, guard := r.guard, initArgs := r.initArgs }
       let calls := (rest.filter (· != ";")).map parseCall
       some (" ".intercalate ((Caches.rebuilds spec Caches.empty calls).map fun b => if b then "1" else "0"))
-  | ["nop"] => some "nop"
+  | "nop" :: _ => some "nop"   -- oracle-only case: the tokens after `nop` describe it for the evidence file
   | _ => none
 end Spq.Drv
